@@ -30,12 +30,12 @@ NewB == [i \in 1..(Cardinality(DOMAIN Reg) - 1) |-> [id |-> i, view |-> Reg[i].v
 
 VARIABLES rep, net, clog, votes, tviews, tcount
 vars == <<rep, net, clog, votes, tviews, tcount>>
-Env(i) == [n |-> N, q |-> Q, leaders |-> Leaders, rs |-> Ruleset, reg |-> Reg,
+Env(i) == [n |-> N, q |-> Q, leaders |-> Leaders, rs |-> Ruleset, agg |-> FALSE, reg |-> Reg,
            avail |-> UNION {rep[j].store : j \in Live \ {i}}, newb |-> NewB]
 \* what a replica sent, as network messages
 Msgs(i, out) ==
     UNION {LET m == out[k] IN
-           CASE m.type = "propose" -> {[to |-> j, ev |-> [type |-> "propose", block |-> m.block, from |-> i]] : j \in Live \ {i}}
+           CASE m.type = "propose" -> {[to |-> j, ev |-> [type |-> "propose", block |-> m.block, from |-> i, agg |-> [v |-> -1, qcs |-> {}]]] : j \in Live \ {i}}
              [] m.type = "vote" -> IF m.to \in Live THEN {[to |-> m.to, ev |-> [type |-> "vote", block |-> m.block, from |-> i, deferred |-> FALSE]]} ELSE {}
              [] m.type = "timeout" -> {[to |-> j, ev |-> [type |-> "timeout", from |-> i, view |-> m.view, si |-> m.si]] : j \in Live \ {i}}
              [] m.type = "newview" -> IF m.to \in Live THEN {[to |-> m.to, ev |-> [type |-> "newview", from |-> i, si |-> m.si]]} ELSE {}
